@@ -9,26 +9,27 @@ reference, matrix row, VArray row, size helper, component array, memoryview, str
 `order` is a permutation index: objects are released in that order, with gc.collect() and fresh
 allocations after every release, and every object still alive is read after each release.
 Memory safety itself is OBSERVED here (values natively, invalid accesses under valgrind), not proved."""
-import sys, json, gc, itertools
+import sys, os, json, gc, itertools
 
 
 def churn(imath):
     """reuse freed memory so that a dangling view is likely to read something else: fresh objects of the sizes the
     scenarios free (8-int arrays, 3x8 matrices of every matrix class, 24- and 48-element arrays, float arrays)"""
     junk = []
-    for n in (8, 3, 6, 12, 24, 48):
-        for _ in range(64 if n == 8 else 24):
+    light = bool(os.environ.get("C19_LIGHT_CHURN"))     # under valgrind: an invalid access is reported without any reuse
+    for n in ((8,) if light else (8, 3, 6, 12, 24, 48)):
+        for _ in range(16 if light else (64 if n == 8 else 24)):
             j = imath.IntArray(n)
             for i in range(n):
                 j[i] = -12345
             junk.append(j)
-    for mc in ("IntMatrix", "FloatMatrix", "DoubleMatrix"):
+    for mc in (() if light else ("IntMatrix", "FloatMatrix", "DoubleMatrix")):
         for _ in range(24):
             m = getattr(imath, mc)(3, 8)
             for i in range(3):
                 m[i] = -12345
             junk.append(m)
-    junk2 = [imath.FloatArray(3) for _ in range(64)] + [imath.DoubleArray(24) for _ in range(16)]
+    junk2 = [imath.FloatArray(3) for _ in range(8 if light else 64)] + [imath.DoubleArray(24) for _ in range(0 if light else 16)]
     return junk, junk2
 
 
